@@ -420,7 +420,7 @@ func (m *monitor) markFinished(r *recState) {
 		// completion inversion: an earlier handed record of the partition is still unfinished
 		st := m.parts[partKey{r.Topic, r.Part}]
 		if st != nil {
-			if a := m.lowestUnfinished(st, r.Off); a != nil {
+			if a := m.lowestUnfinished(st, r.Off, r); a != nil {
 				m.stat["completion_inversions"]++
 			}
 		}
@@ -428,8 +428,14 @@ func (m *monitor) markFinished(r *recState) {
 }
 
 // lowestUnfinished returns the handed, unfinished record of the partition
-// with the lowest offset < below (nil if none).
-func (m *monitor) lowestUnfinished(st *partState, below int64) *recState {
+// with the lowest offset < below (nil if none). In a partition whose records
+// are not in offset order (grid cases: the same offsets recur with every
+// epoch, which no broker does) "earlier" is the visiting order: only records
+// handed no later than upto (the record the mark is one past) count - a
+// record of the next grid point that has been handed while the asynchronous
+// broker commit of the previous point's mark was still on its way is not
+// passed by that mark.
+func (m *monitor) lowestUnfinished(st *partState, below int64, upto *recState) *recState {
 	for st.lo < len(st.recs) {
 		r := st.recs[st.lo]
 		if r.finished() || r.Off < st.start {
@@ -448,6 +454,9 @@ func (m *monitor) lowestUnfinished(st *partState, below int64) *recState {
 		}
 		if r.served && !r.finished() {
 			return r
+		}
+		if st.unsorted && upto != nil && r == upto {
+			break
 		}
 	}
 	return nil
@@ -493,7 +502,7 @@ func (m *monitor) checkHead(where string, k partKey, h head, committed *recState
 	}
 	m.stat["p1_ok_"+where]++
 	// ---- P2: frontier ----
-	a := m.lowestUnfinished(st, h.Off)
+	a := m.lowestUnfinished(st, h.Off, b)
 	if a == nil {
 		m.stat["p2_ok_"+where]++
 		return
